@@ -4,3 +4,5 @@ import RV.Props.C07
 import RV.Props.C17
 import RV.Props.C18
 import RV.Props.C16
+import RV.Props.C14
+import RV.Props.C14Real
